@@ -35,7 +35,9 @@ ASSUMPTIONS = ["-h/-SPLITBYTE only for sources without \\{", "sources mentioning
 REPORT_OPTS = [["-L"], ["-l"], ["-u"], ["-C"], ["-s"], ["-I"], ["-g", "MAP"], ["-g", "NOICE"], ["-g", "ATMEL"],
                ["-t", "0"], ["-t", "127"], ["-t", "5"], ["-x"], ["-x", "-x"], ["-n"], ["-A"], ["-r"], ["-gnuerrors"],
                ["-listradix", "2"], ["-listradix", "8"], ["-listradix", "10"], ["-listradix", "36"], ["-P"], ["-M"],
-               ["-E", "!1"], ["-E", "err.log"], ["-E", "!2"], ["-L", "-olist", "/w/out/other.lst"], ["-noquiet"]]
+               ["-E", "!1"], ["-E", "err.log"], ["-E", "!2"], ["-L", "-olist", "/w/out/other.lst"], ["-noquiet"],
+               # options that count when repeated (quiet level 2, extended error level 2)
+               ["-q", "-q"], ["-quiet"], ["-q", "-quiet", "-q"], ["-x", "-x", "-x"]]
 HEX_OPTS = [["-h"], ["-splitbyte", "."]]
 DATE_RE = re.compile(rb"\d{1,2}[/.]\d{1,2}[/.]\d{2,4}|\d{1,2}:\d{2}:\d{2}")
 
@@ -74,6 +76,9 @@ def gen_program(rng):
             # reference, usage and symbol reports also read), placed before or after the first reference
             sym = rng.choice(["v1", "v2", "l%d" % rng.randint(0, 30), "u%d" % i])
             L.append("u%d\tequ %d" % (i, i))
+            if rng.chance(0.5):
+                # text for the console: evaluating it touches the symbols it mentions, whoever is listening
+                L.append(rng.choice(["\tmessage \"u is \\{u%d}\"", "\tmessage \"v1+u=\\{v1+u%d}\"", "\twarning \"w \\{u%d}\""]) % i)
             L.append("\t%s %s\n\t%s %d\n\telse\n\t%s %d,%d\n\tendif" % (rng.choice(["ifused", "ifnused", "ifdef", "ifndef"]), sym, db, rng.below(256), db, rng.below(256), rng.below(256)))
             if rng.chance(0.5):
                 L.append("\t%s u%d" % (dw, i))
@@ -121,7 +126,8 @@ def base_case(rng, tests):
                 "mentions_clock": bool(re.search(rb"\b(date|time)\b", t.src, re.I)), "has_brace": b"\\{" in t.src or b"\\{" in b"".join(
                     v for k, v in local_disk(t, "/w/t").items())}
     src = gen_program(rng).encode()
-    return {"name": "gen", "flags": [], "disk": {"/w/t/gen.asm": src, "/w/t/blk.inc": b"\tnop\n"}, "golden": False, "mentions_clock": False, "has_brace": False}
+    return {"name": "gen", "flags": [], "disk": {"/w/t/gen.asm": src, "/w/t/blk.inc": b"\tnop\n"}, "golden": False, "mentions_clock": False,
+            "has_brace": b"\\{" in src}
 
 
 def make_scenario(b, rng, ref=False, force=None):
